@@ -302,4 +302,61 @@ class C10b(Obligation):
                       'project root + guessed names is the directory level-1 levels above the importing file')
 
 
-OBLIGATIONS = [C10a, C10b, C10c, C10d]
+from jedi.inference.value.module import ModuleValue  # noqa: E402
+
+
+class C10e(Obligation):
+    id = 'C10.e'
+    title = 'only packages have a __path__: a plain module never offers a directory to search sub-modules in'
+    pattern = 'P5 decision table'
+    assumptions = ('module value stubs: package / plain module, with / without a namespace declaration in its first lines',)
+
+    def scenario(self, ctx, cfg):
+        is_package = ctx.flag('is_package')
+        declares_ns = ctx.flag('declares_namespace')
+        ctx.int('unused')
+        m = ModuleValue.__new__(ModuleValue)
+        m._pysym_holder = True
+        m._is_package = is_package
+        m.code_lines = ['__path__ = __import__("pkgutil").extend_path(__path__, __name__)\n'] if declares_ns else ['x = 1\n']
+        m.inference_state = Obj(get_sys_path=lambda: [])
+        m._path = None
+        ctx.patch(ModuleValue, 'py__file__', lambda self: __import__('pathlib').Path('/proj/pkg/__init__.py' if is_package else '/proj/pkg/mod.py'))
+        ctx.patch(ModuleValue, 'name', Obj(string_name='pkg'))
+        ctx.force(ModuleValue.py__path__)
+        out = ctx.call(ModuleValue.py__path__, m)
+        ctx.check(out.exc is None, 'never raises')
+        if out.exc is None:
+            if is_package:
+                ctx.check(out.value == ['/proj/pkg'], 'a package searches its own directory')
+            else:
+                ctx.check(out.value is None, 'a plain module has no __path__ (import a.b through a module must fail)')
+
+
+class C10f(Obligation):
+    id = 'C10.f'
+    title = 'goto on "from . import name" follows the sub-module with the SAME relative level as infer does'
+    pattern = 'P3 (import preparation and Importer are recording stubs; level symbolic)'
+    assumptions = ('_prepare_infer_import is a stub returning a symbolic level; attribute goto on the package finds nothing '
+                   '(so the sub-module fallback is taken); Importer is a recording stub',)
+
+    def scenario(self, ctx, cfg):
+        level = ctx.int('level', 0, 4)
+        made = []
+        tree_name = Obj(tag='tree-name')
+        pkg_value = Obj(goto=lambda name, name_context=None, analysis_errors=True: [])
+        ctx.patch(jimports, '_prepare_infer_import',
+                  lambda module_context, tn: ('util', ('pkg',), level, [pkg_value]))
+
+        class_importer = lambda state, path, module_context, lvl=0: made.append((path, lvl)) or Obj(follow=lambda: [])
+        ctx.patch(jimports, 'Importer', class_importer)
+        context = Obj(get_root_context=lambda: 'MODULE-CONTEXT', inference_state=Obj(memoize_cache={}))
+        ctx.force(jimports.goto_import)
+        out = ctx.call(jimports.goto_import, context, tree_name)
+        ctx.check(out.exc is None, 'never raises')
+        ctx.check(len(made) == 1 and made[0][0] == ('pkg', 'util'), 'the sub-module pkg.util is looked for')
+        if len(made) == 1:
+            ctx.check(made[0][1] == level, 'with the relative level of the import statement')
+
+
+OBLIGATIONS = [C10a, C10b, C10c, C10d, C10e, C10f]
